@@ -68,7 +68,7 @@ func GenBeacon(prop string, seed uint64, tier string) *BeaconScenario {
 	perm := r.Perm(sc.N)
 	var byz []int
 	for i := 0; i < bad; i++ {
-		if r.Bool(75) || prop == "C01" || prop == "C03" || prop == "C10" {
+		if r.Bool(75) || prop == "C01" || prop == "C03" || prop == "C10" || prop == "C14" {
 			sc.Roles[perm[i]] = "byz"
 			byz = append(byz, perm[i])
 		} else {
@@ -125,6 +125,10 @@ func GenBeacon(prop string, seed uint64, tier string) *BeaconScenario {
 		}
 	case "C04":
 		use["jump"], use["stall"], use["byz"] = true, true, true
+	case "C14":
+		// hostile members at the beacon layer: what they send must not kill the process (a panic in the
+		// aggregator or a store worker goroutine is not caught by anything)
+		use["byz"], use["observe"] = true, true
 	case "C05":
 		use["partition"], use["stop"], use["loss"] = true, true, true
 	case "C10":
@@ -276,6 +280,12 @@ func GenBeacon(prop string, seed uint64, tier string) *BeaconScenario {
 		kinds := []string{"valid", "dup", "wrong_round", "wrong_prev", "random_scalar", "other_index", "victim_index", "nonmember_index", "truncated", "bitflip", "replay_old", "future", "flood", "evicted_member", "old_epoch"}
 		for k := r.Range(3, 12); k > 0; k-- {
 			add(Act{AtMs: at(), Kind: "byz", Node: byz[r.Intn(len(byz))], S: kinds[r.Intn(len(kinds))], A: int64(r.Range(-1, 2)), B: int64(r.Range(5, 60))})
+		}
+		if prop == "C14" {
+			// bursts well beyond what one member may have pending (the cache evicts from 100 on), all between two beacons
+			for k := r.Range(1, 3); k > 0; k-- {
+				add(Act{AtMs: at(), Kind: "byz", Node: byz[r.Intn(len(byz))], S: "flood", A: int64(r.Range(-1, 1)), B: int64(r.Range(205, 330))})
+			}
 		}
 	}
 	if use["observe"] && len(honest) > 0 {
